@@ -104,6 +104,19 @@ theorem association_exists_exact (s : H) (env : ModelEnv) (cls : String) (a b : 
     model_association_exists_between_assets s env cls a b = .ok (MS.assocExists (abs s) cls a b) :=
   exists_tie s env cls a b
 
+/-- `_validate_association` of an association that is not yet in its group of `_type_to_association` accepts
+exactly when every check of the reference model (`assocCheck`: members are assets of the model, no two members of
+a field share a name, no (left id, right id) pair is linked already by an association of the class) passes -/
+theorem validate_association_exact {env : ModelEnv} (hE : EqId env) (s : H) (l : LRef)
+    (hfresh : l ∉ MS.ttaGet s._type_to_association (s.l l).cls) :
+    model__validate_association s env l = .ok () ↔ assocCheck (abs s) (absAssoc (s.l l)) = none :=
+  validate_ok_iff hE s l hfresh
+
+/-- `AttackerAttachment.get_entry_point_tuple`: the first tuple of the attacker whose asset is `a` -/
+theorem get_entry_point_tuple_exact {env : ModelEnv} (hE : EqId env) (s : H) (t : TRef) (a : ARef) :
+    (attachment_get_entry_point_tuple s env t a).map (epVal s) = ((abs s).tobj t).entry.find? (·.1 = a) :=
+  at_get_entry_point_tuple_tie hE s t a
+
 /-- `get_association_field_names`: the two keys of `_properties`, in order -/
 theorem field_names_exact (s : H) (env : ModelEnv) (l : LRef) :
     model_get_association_field_names s env l = ((s.l l).lf, (s.l l).rf) := rfl
@@ -430,5 +443,18 @@ example :
   refine ⟨by decide, by decide, by decide, by decide, by decide, by decide, by decide, ?_⟩
   exact (run_sim MS.Demo.lang demo_fieldsDistinct idEnv_eqId (demoOps.take 5) {} init_inv epOKAll_empty
     ⟨by show _ ≤ _; decide, by show _ ≤ _; decide, trivial, trivial, trivial, trivial⟩).2.2
+
+/-- on that heap: the net's neighbours through `hosts` are the host, the host's through `nets` the net; the
+attacker has no value twin (`NoTwin`), so `remove_attacker_refines_partial` applies -/
+example :
+    let s := (demoOps.take 5).foldl (stepGen MS.Demo.lang idEnv) {}
+    model_get_associated_assets_by_field_name s idEnv 1 "hosts" = .ok [0] ∧
+    model_get_associated_assets_by_field_name s idEnv 0 "nets" = .ok [1] ∧
+    model_get_asset_by_id s idEnv (-3) = some 1 ∧ model_get_asset_by_name s idEnv "h" = some 0 ∧
+    NoTwin idEnv s 0 := by
+  refine ⟨rfl, rfl, by decide, by decide, ?_⟩
+  intro u hu _
+  have : u ∈ [0] := hu
+  simpa using this
 
 end MalVerif.PropsGen.C05
